@@ -463,8 +463,8 @@ func (d *Decoder) DecodePackedInt32() ([]int32, error) { //nolint: dupl // FALSE
 		if n == 0 {
 			return nil, fmt.Errorf("invalid data at byte %d: %w", d.offset, ErrInvalidVarintData)
 		}
-		// ensure the result is within [-math.MaxInt32, math.MaxInt32] when converted to a signed value
-		if v > math.MaxInt32 {
+		// ensure the result is within [math.MinInt32, math.MaxInt32] when converted to a signed value
+		if i64 := int64(v); i64 > math.MaxInt32 || i64 < math.MinInt32 {
 			return nil, fmt.Errorf("invalid data at byte %d: %w", d.offset, ErrValueOverflow)
 		}
 		nRead += uint64(n)
